@@ -24,7 +24,8 @@ DATA_BASIC = ['good', 'corrupt', 'http404']
 DATA_KINDS = ['good', 'corrupt', 'corrupt_trunc', 'corrupt_extra', 'corrupt_empty', 'http404',
               'http500', 'conn_error', 'midstream_error', 'good_keepalive']
 MD5_BASIC = ['correct', 'wrong', 'missing']
-MD5_KINDS = ['correct', 'correct', 'wrong', 'missing', 'conn_error', 'empty', 'with_filename']
+MD5_KINDS = ['correct', 'correct', 'wrong', 'missing', 'conn_error', 'empty', 'with_filename',
+             'wrong_truncated']
 PRIORS = ['absent', 'valid', 'corrupt']
 HEAD_KINDS = ['fail', 'length', 'zero', 'wrong_length']
 
@@ -54,7 +55,8 @@ ASSUMPTIONS = [
 ]
 EXPECTED_PROBES = {'C20': ['retry_taken', 'retry_succeeds', 'persistent_mismatch', 'valid_skip',
                            'http_error', 'midstream_error', 'disk_full', 'corrupt_then_good',
-                           'second_call', 'bitrot_same_size_and_mtime']}
+                           'second_call', 'bitrot_same_size_and_mtime',
+                           'body_of_one_mebibyte_or_more']}
 
 
 # --------------------------------------------------------------------------------------------------
@@ -84,7 +86,11 @@ def gen(rng, prop, tier):
     mk = MD5_KINDS if rich else MD5_BASIC
     cfg = {'prior': rng.choice(PRIORS),
            'body_len': rng.choice([0, 1, 7, 100, 1024, 1025, 3000, 5000]) if rich else 3000,
+           'big_body': None,
            'body_seed': rng.randint(1, 1000)}
+    if rich and rng.random() < 0.01:
+        # the checksum is computed in blocks of 1 MiB: bodies around that size
+        cfg['body_len'] = rng.choice([2 ** 20 - 1, 2 ** 20, 2 ** 20 + 4096, 2 ** 21 + 5])
     ops = []
     for _ in range(1 if rng.random() < 0.6 else rng.randint(2, 3)):
         if ops and rng.random() < 0.5:
@@ -98,7 +104,7 @@ def gen(rng, prop, tier):
                     rng.choice(['good', 'good', 'corrupt', 'http404'])]
         md5 = [rng.choice(mk) for _ in range(rng.randint(1, 3))]
         if rng.random() < 0.5:
-            md5 = [rng.choice(['correct', 'correct', 'with_filename', 'wrong'])]
+            md5 = [rng.choice(['correct', 'correct', 'with_filename', 'wrong', 'wrong_truncated'])]
         disk = None
         if rich and rng.random() < 0.15:
             disk = rng.randint(1, 6)
@@ -157,6 +163,9 @@ class SimStreamReset(IOError):
 
 def _body(n, seed):
     import random
+    if n > 100000:
+        import numpy as np
+        return np.random.RandomState((seed * 7919 + n) % (2 ** 32)).bytes(n)
     r = random.Random('body/%s/%s' % (n, seed))
     return bytes(r.getrandbits(8) for _ in range(n))
 
@@ -249,6 +258,10 @@ class Server(object):
             if kind == 'wrong':
                 self.md5_answers.append(self.p_wrong)
                 return Response(url, text=self.p_wrong)
+            if kind == 'wrong_truncated':
+                # a served but damaged checksum file (one hex digit missing): published, and wrong
+                self.md5_answers.append(self.p_ok[:-1])
+                return Response(url, text=self.p_ok[:-1])
             raise ValueError(kind)
         kind = self._next('data')
         self.requests.append(('GET', 'data', kind))
@@ -362,6 +375,8 @@ def execute(plan, ctx):
     pev.set_silent(False)
 
     for step, op in enumerate(plan['ops']):
+        if op['op'] == 'download' and cfg['body_len'] > 100000 and op['chunk'] < 1024:
+            op = dict(op, chunk=1024)
         if op['op'] == 'bitrot':
             if path.exists() and path.stat().st_size > 0:
                 st = path.stat()
@@ -397,6 +412,8 @@ def execute(plan, ctx):
         if step > 0:
             ctx.probe('second_call')
         ctx.op('download')
+        if cfg['body_len'] >= 2 ** 20 - 1:
+            ctx.probe('body_of_one_mebibyte_or_more')
         final = path.read_bytes() if path.exists() else None
         data_reqs = [r for r in server.requests if r[1] == 'data' and r[0] == 'GET']
         md5_reqs = [r for r in server.requests if r[1] == 'md5']
